@@ -83,7 +83,11 @@ def plan(seed, subbatch):
             continue
         extras.append((op_rng.random(), op))
     start = world.pick_start(cfg, base_s, tf_s)
-    pre, ops, fired, rows = planlib.stream_and_schedule(seed, subbatch, n, base_s, start, faults, burst, 0.0, extras)
+    regimes = None
+    if subbatch == "faulty" and cfg.random() < 0.4:
+        regimes = world.REGIMES_NORMAL + cfg.sample(["stall", "stall0", "zerovol"], 2)
+    pre, ops, fired, rows = planlib.stream_and_schedule(seed, subbatch, n, base_s, start, faults, burst, 0.0, extras,
+                                                        regimes=regimes, regime_len=(1, 10))
     fired["operator_ops"] += len(extras)
     out = [{"op": "new", "preload": pre, "calculate": cfg.random() < 0.7}] + ops + [{"op": "final"}]
     return {"format": 1, "property": ID, "seed": seed, "subbatch": subbatch,
